@@ -12,6 +12,7 @@ func init() { register("C08", checkC08) }
 func checkC08(c *Check) {
 	c.connUses("C03.1 connection-use")
 	c.readerFraming("C08.1 framing")
+	c.readerHandoff()
 	c.messageDispatch("C08.1 type-dispatch")
 	c.notificationEncode("C08.3 notification-encode")
 	c.notifSentThenTeardown("C08.2 notification-sent")
